@@ -248,6 +248,9 @@ def bufs_check(ctx, own, nscripts, nsteps, mc_consts, rule, assumptions):
                 "INVARIANT Inv\nPROPERTY ActionProps\nVIEW View\nCHECK_DEADLOCK FALSE\n" % mc_consts)
     mc = tlc_model(ctx, "MC_Bufs", mc_cfg, timeout=3000, heap="16g")
     scripts = gen_bufscripts(ctx, nscripts, nsteps)
+    # long sessions over 17 and 19 paths: the 16-slot table fills up and the least recently used buffers are revisited and evicted
+    scripts += gen_bufscripts(ctx, max(16, nscripts // 8), 2 * nsteps + 20, extra={"NPATHS": 17}) + \
+               gen_bufscripts(ctx, max(16, nscripts // 8), 2 * nsteps + 20, extra={"NPATHS": 19})
     for sc in scripts:
         for st in sc["steps"]:
             if not st["thm"]:
